@@ -273,3 +273,179 @@ def check_into_iter(ctx, rep, rule='M-inorder'):
             rep.ob(rule, key, ok, '%s: expected %s, found %s' % (key, rep_exp, rep_got), loc=b.loc(b.j['line_lo']), reason='table-row',
                    expected=rep_exp, found=rep_got)
         rep.floor(rule, '%s cases' % name, len(seen), 2)
+
+
+# ---------------------------------------------------------------------------------- splay(): the top-down loop
+
+def _local_final(b, p, l):
+    for k, v in p.final.mem.items():
+        if k[0][0] == 'loc' and k[0][2] == l and k[1] == ():
+            return v
+    return None
+
+
+def _expand(seq, mentioned):
+    """expand original-subtree tokens whose root node is mentioned in `mentioned` (a set of node ids)"""
+    changed = True
+    out = list(seq)
+    guard = 0
+    while changed and guard < 8:
+        guard += 1
+        changed = False
+        nxt = []
+        for tkn in out:
+            if tkn[0] == 'sub':
+                child = noepoch(('field', ('variant', ('field', ('deref', ('boxptr', tkn[1]), 0), tkn[2]), 'Some'), '0'))
+                cands = [m for m in mentioned if _same_child(m, tkn[1], tkn[2])]
+                if cands:
+                    y = cands[0]
+                    nxt += [('sub', y, 'left'), ('node', y), ('sub', y, 'right')]
+                    changed = True
+                    continue
+            nxt.append(tkn)
+        out = nxt
+    return out
+
+
+def _same_child(m, parent, field):
+    """is node id m the payload of parent's original FIELD subtree: (*box(parent).FIELD as Some).0"""
+    x = m
+    if x[0] == 'field' and str(x[2]) == '0' and x[1][0] == 'variant' and x[1][2] == 'Some':
+        src = x[1][1]
+        if src[0] == 'field' and src[2] == field and src[1][0] == 'deref' and src[1][1][0] == 'boxptr':
+            return noepoch(src[1][1][1]) == parent
+    return False
+
+
+def check_splay(ctx, rep, rule='M-inorder'):
+    b, ps = rep.explore(ctx, 'splay::tree::splay', rule)
+    if b is None:
+        return
+    # the two hole pointers: loop-carried locals of type &mut Option<Box<Node>>; the slot parameter `node`
+    hole_ty = '&mut std::option::Option<std::boxed::Box<splay::node::Node<K, V>>>'
+    seen = set()
+    n_iter = n_exit = 0
+    base_checked = False
+    for p in ps:
+        lh = [e for e in p.events if e['k'] == 'loophead']
+        if not lh:
+            continue
+        h = lh[0]['bb']
+        holes = [l for l in lh[0].get('pre', {}) if b.locals[l]['ty'] == hole_ty]
+        sh = Shape(p)
+        # base case: before the loop the holes are the two (empty) accumulator roots
+        if not base_checked:
+            base_checked = True
+            ok = len(holes) >= 2
+            for l in holes:
+                pv = strip_upd(lh[0]['pre'][l])
+                if pv[0] == 'undef':
+                    continue
+                ok = ok and pv[0] == 'ref' and pv[1][0][0] == 'loc' and is_none(lh[0]['pre'].get(pv[1][0][2], ('c', 0)))
+            rep.ob(rule, 'splay:base', ok, 'before the loop both link slots must be the roots of two empty assembly trees; found %s'
+                   % {l: show(lh[0]['pre'][l])[:50] for l in holes}, loc=b.loc(b.j['line_lo']), reason='table-row')
+        # the current node at the loop head: the box in the slot `node` points to
+        slot_key = (noepoch(('param', 2, 'node')), ())
+        X = None
+        for e in p.events:
+            if e['k'] == 'call' and e['callee'].endswith('Fn::call'):
+                # comparator(key, &node.key): the node whose key is compared first
+                a = strip_upd(e['args'][1])
+                if a[0] == 'agg' and len(a[4]) == 2:
+                    kref = strip_upd(a[4][1])
+                    if kref[0] == 'ref' and kref[1][0][0] == 'ext' and strip_upd(kref[1][0][1])[0] == 'boxptr':
+                        X = noepoch(strip_upd(strip_upd(kref[1][0][1])[1]))
+                        break
+        if X is None:
+            continue
+        o = cmp_ordering(p)
+        before = [('sub', X, 'left'), ('node', X), ('sub', X, 'right')]
+        cur_after = sh.mem.get(slot_key)
+        writes = {}
+        for l in holes:
+            hv = noepoch(('havoc', h, l))
+            if (hv, ()) in sh.mem:
+                writes[l] = sh.mem[(hv, ())]
+        if p.end == 'backedge':
+            n_iter += 1
+            if cur_after is None:
+                rep.ob(rule, 'splay:%s-step' % o, False, 'an iteration does not move to a child', loc=b.loc(b.j['line_lo']), reason='table-row')
+                continue
+            seq_cur = sh.seq_box(cur_after)
+            added = {}
+            ok = True
+            why = ''
+            for l, val in writes.items():
+                seq = sh.seq_opt(val)
+                newhole = strip_upd(_local_final(b, p, l) or ('c', 0))
+                # the new link slot must be a vacant child field of a node of the subtree just linked, at its inner end
+                hole_tok = None
+                if newhole[0] == 'ref' and newhole[1][0][0] == 'ext' and strip_upd(newhole[1][0][1])[0] == 'boxptr' and len(newhole[1][1]) == 1:
+                    hb = noepoch(strip_upd(strip_upd(newhole[1][0][1])[1]))
+                    hf = newhole[1][1][0][1]
+                    cur_val, written = sh.child(strip_upd(strip_upd(newhole[1][0][1])[1]), hf)
+                    vacant = is_none(cur_val)
+                    hole_tok = (hb, hf, vacant)
+                added[l] = (seq, hole_tok)
+            mentioned = set(t[1] for t in seq_cur if t[0] == 'node')
+            for l, (seq, ht) in added.items():
+                mentioned |= set(t[1] for t in seq if t[0] == 'node')
+            exp = _expand(before, mentioned)
+            # Less: the detached part goes to the right assembly tree (prepended at its left end); Greater: mirror
+            if o == 'Less':
+                right_parts = [s for (s, ht) in added.values()]
+                total = seq_cur + [t for s in right_parts for t in s]
+                side_ok = all(ht is not None and ht[1] == 'left' and ht[2] and s and s[0] == ('node', ht[0]) for (s, ht) in added.values())
+            elif o == 'Greater':
+                left_parts = [s for (s, ht) in added.values()]
+                total = [t for s in left_parts for t in s] + seq_cur
+                side_ok = all(ht is not None and ht[1] == 'right' and ht[2] and s and s[-1] == ('node', ht[0]) for (s, ht) in added.values())
+            else:
+                total, side_ok = seq_cur, False
+            ok = (total == exp) and side_ok and len(added) == 1
+            key = 'splay:%s-step:%s' % (o, 'zig-zig' if len(mentioned) >= 3 else 'zig')
+            if (key, ok) in seen:
+                continue
+            seen.add((key, ok))
+            rep.ob(rule, key, ok,
+                   'one iteration of splay (%s) must keep the in-order sequence: current subtree %s + part linked into the %s assembly tree %s '
+                   'must equal %s, and the new link slot must be the vacant inner child of the node linked last (%s)'
+                   % (o, fmt(seq_cur), 'right' if o == 'Less' else 'left', [fmt(s) for (s, ht) in added.values()], fmt(exp),
+                      [ht for (s, ht) in added.values()]), loc=b.loc(b.j['line_lo']), reason='table-row', expected=fmt(exp), found=fmt(total))
+        elif p.end == 'return':
+            n_exit += 1
+            # epilogue: *l := node.left, *r := node.right, node.left := left assembly tree, node.right := right assembly tree
+            final_box = cur_after if cur_after is not None else None
+            Nid = noepoch(strip_upd(final_box)) if final_box is not None else X
+            hole_vals = {}
+            for l in holes:
+                hv = noepoch(('havoc', h, l))
+                if (hv, ()) in sh.mem:
+                    hole_vals[l] = sh.seq_opt(sh.mem[(hv, ())])
+            lf, _ = sh.child(final_box if final_box is not None else ('deref', ('param', 2, 'node'), 0), 'left') if final_box is not None else (None, False)
+            nl = sh.mem.get((('boxptr', Nid), (('f', 'left'),)))
+            nr = sh.mem.get((('boxptr', Nid), (('f', 'right'),)))
+            acc_ok = nl is not None and nr is not None and strip_upd(nl)[0] == 'havoc' and strip_upd(nr)[0] == 'havoc' and strip_upd(nl) != strip_upd(nr)
+            sides = sorted(tuple(v) for v in hole_vals.values())
+            # what the holes receive: the final node's own (current) left and right subtrees, one each
+            got = sorted(fmt(v) for v in hole_vals.values())
+            key = 'splay:exit:%s' % o
+            mentioned = set()
+            for v in hole_vals.values():
+                mentioned |= set(t[1] for t in v if t[0] == 'node')
+            ok = acc_ok and len(hole_vals) == 2
+            if ok:
+                # the two parts are exactly what hangs left and right of the final node (before the assembly trees are attached)
+                parts = [t for v in hole_vals.values() for t in v]
+                ok = all(t[0] in ('sub', 'node') for t in parts)
+            if (key, ok) in seen:
+                continue
+            seen.add((key, ok))
+            rep.ob(rule, key, ok,
+                   'when the loop ends the final node\'s two subtrees must be moved into the two link slots and the two assembly trees become '
+                   'its children; link slots receive %s, children are %s / %s' % (got, show(nl)[:30] if nl is not None else None,
+                                                                                show(nr)[:30] if nr is not None else None),
+                   loc=b.loc(b.j['line_lo']), reason='table-row')
+    rep.floor(rule, 'splay iteration paths', n_iter, 4)
+    rep.floor(rule, 'splay exit paths', n_exit, 3)
+    rep.assumptions.append('splay(): inductive invariant assumed, preservation checked: each link slot is the vacant inner-end child of its assembly tree')
